@@ -14,7 +14,7 @@ use std::collections::{BTreeMap, BTreeSet};
 use std::sync::Arc;
 use std::time::{Duration, Instant};
 use vcore::choice::{Chooser, explore};
-use vcore::ctlstore::CtlStore;
+use vcore::ctlstore::{CtlStore, Mutation, apply as apply_mutation, restore, snapshot};
 use vcore::step::{RunEnd, Sched};
 use vcore::{Run, Violation, util};
 use vstore::fix::{Class, KEYS, Wrap, build, class_of, key, payload};
@@ -26,9 +26,22 @@ use vstore::ops::{Book, Mode, Op, Tok, apply};
 enum Act {
     M(Op),
     Get(u8),
+    /// one `get_ranges` call: all bodies of one call must come from one commit
+    /// (the reference slices one entry under its lock)
+    Ranges(u8, Vec<(u64, u64)>),
     /// list(None), drained; while it overlaps a commit it may report either
     /// version, so only its class is part of the answer
     List,
+}
+
+impl Act {
+    /// The key a read action reads (None for mutations and listings).
+    fn read_key(&self) -> Option<u8> {
+        match self {
+            Act::Get(k) | Act::Ranges(k, _) => Some(*k),
+            _ => None,
+        }
+    }
 }
 
 #[derive(Clone)]
@@ -46,6 +59,14 @@ struct Scn {
 struct ActOut {
     class: Class,
     body: Option<Vec<u8>>,
+    /// bodies of a `get_ranges` call, one per requested range
+    parts: Vec<Vec<u8>>,
+}
+
+impl ActOut {
+    fn new(class: Class, body: Option<Vec<u8>>) -> ActOut {
+        ActOut { class, body, parts: Vec::new() }
+    }
 }
 
 fn put(k: u8, var: u8, mode: Mode) -> Op {
@@ -66,6 +87,27 @@ fn scenarios() -> Vec<Scn> {
             "put-vs-copy-onto",
             vec![init(0), put(2, 3, Mode::Overwrite)],
             put(0, 1, Mode::Overwrite),
+            Op::Copy { from: 2, to: 0, create: false },
+        ),
+        // unconditional overwrites racing each other and every writer that
+        // commits through another entry point (commit order vs timestamps)
+        two("put-vs-put", vec![init(0)], put(0, 1, Mode::Overwrite), put(0, 2, Mode::Overwrite)),
+        two(
+            "put-vs-multipart",
+            vec![init(0)],
+            put(0, 1, Mode::Overwrite),
+            Op::Multi { key: 0, parts: vec![15, 2, 16], var: 2, abort: false },
+        ),
+        two(
+            "put-vs-rename-onto",
+            vec![init(0), put(2, 3, Mode::Overwrite)],
+            put(0, 1, Mode::Overwrite),
+            Op::Rename { from: 2, to: 0, create: false },
+        ),
+        two(
+            "multipart-vs-copy-onto",
+            vec![init(0), put(2, 3, Mode::Overwrite)],
+            Op::Multi { key: 0, parts: vec![15, 2, 16], var: 2, abort: false },
             Op::Copy { from: 2, to: 0, create: false },
         ),
         two(
@@ -122,6 +164,43 @@ fn scenarios() -> Vec<Scn> {
         list_vs("list-vs-multipart-cold-key", vec![init(0), put(2, 3, Mode::Overwrite)], Op::Multi { key: 0, parts: vec![15, 2, 16], var: 2, abort: false }),
         list_vs("list-vs-update-cold-key", vec![init(0)], Op::Put { key: 0, size: 35, var: 1, mode: Mode::Update(Tok::Latest) }),
     ]
+    .into_iter()
+    .chain(ranges_scenarios())
+    .collect()
+}
+
+/// One `get_ranges` call (ranges in different chunk spans of a three-chunk
+/// object at chunk size 16, in and out of order, one range repeated inside an
+/// earlier span) racing one overwrite of the same key by every kind of
+/// writer, the new object as long as the old one (so every serial order
+/// answers bytes). The reader's instance is warm, or cold for the key.
+fn ranges_scenarios() -> Vec<Scn> {
+    let big = |k: u8, var: u8, mode: Mode| Op::Put { key: k, size: 35, var, mode };
+    let fwd = vec![(1u64, 3u64), (17, 20), (33, 35)];
+    let mixed = vec![(17u64, 20u64), (1, 3), (18, 19), (33, 35), (2, 5)];
+    let scn = |name, setup: Vec<Op>, rs: &Vec<(u64, u64)>, w: Op, cold: bool| Scn {
+        name,
+        setup,
+        tasks: vec![vec![Act::Ranges(0, rs.clone())], vec![Act::M(w)]],
+        cold,
+    };
+    let init = || big(0, 0, Mode::Overwrite);
+    let src = || big(2, 3, Mode::Overwrite);
+    vec![
+        scn("get_ranges-vs-put", vec![init()], &fwd, big(0, 1, Mode::Overwrite), false),
+        scn("get_ranges-mixed-vs-put", vec![init()], &mixed, big(0, 1, Mode::Overwrite), false),
+        scn("get_ranges-vs-put-cold-key", vec![init()], &fwd, big(0, 1, Mode::Overwrite), true),
+        scn("get_ranges-vs-update", vec![init()], &mixed, big(0, 1, Mode::Update(Tok::Latest)), false),
+        scn(
+            "get_ranges-vs-multipart",
+            vec![init()],
+            &mixed,
+            Op::Multi { key: 0, parts: vec![15, 2, 18], var: 2, abort: false },
+            false,
+        ),
+        scn("get_ranges-vs-copy-onto", vec![init(), src()], &mixed, Op::Copy { from: 2, to: 0, create: false }, false),
+        scn("get_ranges-vs-rename-onto", vec![init(), src()], &fwd, Op::Rename { from: 2, to: 0, create: false }, false),
+    ]
 }
 
 type Content = [Option<Vec<u8>>; 3];
@@ -134,18 +213,26 @@ fn norm(op: &Op, c: Class) -> Class {
 async fn get_act(store: &dyn ObjectStore, k: u8) -> ActOut {
     match store.get(&key(k)).await {
         Ok(r) => match r.bytes().await {
-            Ok(b) => ActOut { class: Class::Ok, body: Some(b.to_vec()) },
-            Err(e) => ActOut { class: class_of(&e), body: None },
+            Ok(b) => ActOut::new(Class::Ok, Some(b.to_vec())),
+            Err(e) => ActOut::new(class_of(&e), None),
         },
-        Err(e) => ActOut { class: class_of(&e), body: None },
+        Err(e) => ActOut::new(class_of(&e), None),
+    }
+}
+
+async fn ranges_act(store: &dyn ObjectStore, k: u8, rs: &[(u64, u64)]) -> ActOut {
+    let ranges: Vec<std::ops::Range<u64>> = rs.iter().map(|(a, b)| *a..*b).collect();
+    match store.get_ranges(&key(k), &ranges).await {
+        Ok(v) => ActOut { class: Class::Ok, body: None, parts: v.iter().map(|b| b.to_vec()).collect() },
+        Err(e) => ActOut::new(class_of(&e), None),
     }
 }
 
 async fn list_act(store: &dyn ObjectStore) -> ActOut {
     use futures::TryStreamExt;
     match store.list(None).try_collect::<Vec<_>>().await {
-        Ok(_) => ActOut { class: Class::Ok, body: None },
-        Err(e) => ActOut { class: class_of(&e), body: None },
+        Ok(_) => ActOut::new(Class::Ok, None),
+        Err(e) => ActOut::new(class_of(&e), None),
     }
 }
 
@@ -226,6 +313,175 @@ async fn post_race(live: &dyn ObjectStore, fresh: &dyn ObjectStore) -> Option<(&
     None
 }
 
+/// What one commit of a key reports, read through a fresh wrapper over the
+/// backend content right after that commit's metadata put landed.
+#[derive(Clone, Debug)]
+struct CommitSeen {
+    lm: chrono::DateTime<chrono::Utc>,
+    e_tag: Option<String>,
+    task: usize,
+}
+
+/// The reference stamps `last_modified` under its write lock, so along the
+/// commit order of one key timestamps never decrease, and a date condition
+/// built from commit N's timestamp, evaluated after commit N+1, answers
+/// accordingly: `if_modified_since(T_N)` returns the new object (NotModified
+/// only when both commits carry the very same instant),
+/// `if_unmodified_since(T_N)` is refused (passes only for the same instant).
+///
+/// Commit order = order of the `meta/<key>` puts in the backend journal; each
+/// commit is observed through a FRESH wrapper over `start` + journal prefix
+/// (API level: head, get with date conditions). The last pair of every key
+/// is also evaluated through the live instance. Returns (what, text, commits).
+fn commit_order_check(
+    wrap: Wrap,
+    start: &BackendContent,
+    entries: &[vcore::ctlstore::JournalEntry],
+    live: &dyn ObjectStore,
+) -> (Option<(&'static str, String)>, u64) {
+    use object_store::GetOptions;
+    let mut content = start.clone();
+    let mut last: [Option<CommitSeen>; 3] = [None, None, None];
+    // (previous, latest) commit of each key, for the live-instance check
+    let mut pair: [Option<(CommitSeen, CommitSeen)>; 3] = [None, None, None];
+    let mut commits = 0u64;
+    // the commit each key starts with
+    {
+        let fresh = build(wrap, restore(&content));
+        for k in 0..3u8 {
+            if let Ok(m) = util::block_on(fresh.head(&key(k))) {
+                last[k as usize] = Some(CommitSeen { lm: m.last_modified, e_tag: m.e_tag, task: usize::MAX });
+            }
+        }
+    }
+    let who = |t: usize| if t == usize::MAX { "the setup".to_string() } else { format!("task {t}") };
+    for e in entries {
+        apply_mutation(&mut content, &e.mutation);
+        let Mutation::Put { path, .. } = &e.mutation else { continue };
+        let Some(k) = (0..3u8).find(|k| *path == format!("meta/{}", KEYS[*k as usize])) else { continue };
+        let loc = key(k);
+        let fresh = build(wrap, restore(&content));
+        let Ok(m) = util::block_on(fresh.head(&loc)) else { continue };
+        commits += 1;
+        let now = CommitSeen { lm: m.last_modified, e_tag: m.e_tag.clone(), task: e.task };
+        if let Some(prev) = &last[k as usize]
+            && prev.e_tag != now.e_tag
+        {
+            if now.lm < prev.lm {
+                return (
+                    Some((
+                        "last_modified-decreases-along-commit-order",
+                        format!(
+                            "{}: the commit of {} reports last_modified {} although the commit before it (of {}) reports {}",
+                            KEYS[k as usize],
+                            who(now.task),
+                            now.lm.timestamp_millis(),
+                            who(prev.task),
+                            prev.lm.timestamp_millis()
+                        ),
+                    )),
+                    commits,
+                );
+            }
+            // date conditions built from the previous commit's timestamp
+            let same_instant = now.lm == prev.lm;
+            let ims = GetOptions { if_modified_since: Some(prev.lm), ..Default::default() };
+            let r = util::block_on(fresh.get_opts(&loc, ims));
+            let ok = match &r {
+                Ok(_) => true,
+                Err(object_store::Error::NotModified { .. }) => same_instant,
+                Err(_) => false,
+            };
+            if !ok {
+                return (
+                    Some((
+                        "if_modified_since-misses-later-commit",
+                        format!(
+                            "{}: get(if_modified_since = last_modified of the previous commit) after the commit of {} answered {:?}",
+                            KEYS[k as usize],
+                            who(now.task),
+                            r.as_ref().err().map(class_of)
+                        ),
+                    )),
+                    commits,
+                );
+            }
+            let ius = GetOptions { if_unmodified_since: Some(prev.lm), ..Default::default() };
+            let r = util::block_on(fresh.get_opts(&loc, ius));
+            let ok = match &r {
+                Err(object_store::Error::Precondition { .. }) => true,
+                Ok(_) => same_instant,
+                Err(_) => false,
+            };
+            if !ok {
+                return (
+                    Some((
+                        "if_unmodified_since-passes-after-later-commit",
+                        format!(
+                            "{}: get(if_unmodified_since = last_modified of the previous commit) after the commit of {} answered {}",
+                            KEYS[k as usize],
+                            who(now.task),
+                            match &r {
+                                Ok(_) => "Ok".to_string(),
+                                Err(e) => format!("{:?}", class_of(e)),
+                            }
+                        ),
+                    )),
+                    commits,
+                );
+            }
+        }
+        pair[k as usize] = last[k as usize].take().filter(|p| p.e_tag != now.e_tag).map(|p| (p, now.clone()));
+        last[k as usize] = Some(now);
+    }
+    // the same two questions to the LIVE instance about each key's final commit
+    for k in 0..3u8 {
+        let Some((prev, now)) = &pair[k as usize] else { continue };
+        let loc = key(k);
+        match util::block_on(live.head(&loc)) {
+            Ok(m) if m.e_tag == now.e_tag => {}
+            _ => continue, // deleted or renamed away afterwards
+        }
+        let same_instant = now.lm == prev.lm;
+        let ims = GetOptions { if_modified_since: Some(prev.lm), ..Default::default() };
+        let r = util::block_on(live.get_opts(&loc, ims));
+        if !matches!(&r, Ok(_)) && !(same_instant && matches!(&r, Err(object_store::Error::NotModified { .. }))) {
+            return (
+                Some((
+                    "live/if_modified_since-misses-later-commit",
+                    format!(
+                        "{}: the live instance answered {:?} to get(if_modified_since = last_modified of the previous commit)",
+                        KEYS[k as usize],
+                        r.as_ref().err().map(class_of)
+                    ),
+                )),
+                commits,
+            );
+        }
+        let ius = GetOptions { if_unmodified_since: Some(prev.lm), ..Default::default() };
+        let r = util::block_on(live.get_opts(&loc, ius));
+        if !matches!(&r, Err(object_store::Error::Precondition { .. })) && !(same_instant && r.is_ok()) {
+            return (
+                Some((
+                    "live/if_unmodified_since-passes-after-later-commit",
+                    format!(
+                        "{}: the live instance answered {} to get(if_unmodified_since = last_modified of the previous commit)",
+                        KEYS[k as usize],
+                        match &r {
+                            Ok(_) => "Ok".to_string(),
+                            Err(e) => format!("{:?}", class_of(e)),
+                        }
+                    ),
+                )),
+                commits,
+            );
+        }
+    }
+    (None, commits)
+}
+
+type BackendContent = vcore::ctlstore::Content;
+
 async fn content_of(store: &dyn ObjectStore) -> Result<Content, String> {
     let mut out: Content = [None, None, None];
     for k in 0..3u8 {
@@ -262,6 +518,9 @@ fn describe_outs(o: &[Vec<ActOut>]) -> String {
             t.iter()
                 .map(|a| match &a.body {
                     Some(b) => format!("{:?}:{}", a.class, tag(b)),
+                    None if !a.parts.is_empty() => {
+                        format!("{:?}:[{}]", a.class, a.parts.iter().map(|b| tag(b)).collect::<Vec<_>>().join(","))
+                    }
                     None => format!("{:?}", a.class),
                 })
                 .collect::<Vec<_>>()
@@ -336,8 +595,9 @@ fn serial_outcomes(scn: &Scn) -> Vec<Serial> {
                     continue; // this action already failed and stopped
                 }
                 let o = match act {
-                    Act::M(op) => ActOut { class: norm(op, apply(&store, &frozen, op).await.class), body: None },
+                    Act::M(op) => ActOut::new(norm(op, apply(&store, &frozen, op).await.class), None),
                     Act::Get(k) => get_act(&store, *k).await,
+                    Act::Ranges(k, rs) => ranges_act(&store, *k, rs).await,
                     Act::List => list_act(&store).await,
                 };
                 outs[t][*ai] = Some(o);
@@ -358,6 +618,8 @@ struct ExecOut {
     violation: Option<Violation>,
     steps: usize,
     labels: Vec<String>,
+    /// commits whose timestamp was compared with their predecessor's
+    commits_checked: u64,
 }
 
 fn canon_labels(labels: &[vcore::ctlstore::Label]) -> Vec<String> {
@@ -402,7 +664,7 @@ fn classify(
     let strip = |o: &[Vec<ActOut>]| -> Vec<Vec<Option<ActOut>>> {
         o.iter()
             .zip(&scn.tasks)
-            .map(|(t, acts)| t.iter().zip(acts).map(|(a, act)| if matches!(act, Act::Get(_)) { None } else { Some(a.clone()) }).collect())
+            .map(|(t, acts)| t.iter().zip(acts).map(|(a, act)| if act.read_key().is_some() { None } else { Some(a.clone()) }).collect())
             .collect()
     };
     let mine = strip(outs);
@@ -412,12 +674,24 @@ fn classify(
     let mut worst = "get-answered-unserializable-value";
     for (t, acts) in scn.tasks.iter().enumerate() {
         for (i, act) in acts.iter().enumerate() {
-            let Act::Get(k) = act else { continue };
+            let Some(k) = act.read_key() else { continue };
+            let k = &k;
             let a = &outs[t][i];
             // values this get answers in some serial order
             let legal: Vec<&ActOut> = serial.iter().map(|(so, _, _)| &so[t][i]).collect();
             if legal.contains(&a) {
                 continue;
+            }
+            if matches!(act, Act::Ranges(..)) && a.class == Class::Ok {
+                // every body taken alone is what some serial order answers for
+                // that range, but no single order answers all of them: one call
+                // returned bytes of two commits
+                let each_held = a.parts.iter().enumerate().all(|(j, b)| legal.iter().any(|l| l.parts.get(j) == Some(b)));
+                return if each_held && a.parts.len() == legal.iter().map(|l| l.parts.len()).max().unwrap_or(0) {
+                    "get_ranges-answered-bytes-of-two-commits"
+                } else {
+                    "get_ranges-answered-bytes-never-written"
+                };
             }
             if let Some(b) = &a.body {
                 let ever_held = legal.iter().any(|l| l.body.as_ref() == Some(b));
@@ -469,6 +743,8 @@ fn run_one(wrap: Wrap, scn: &Scn, serial: &[Serial], ch: &mut Chooser) -> ExecOu
         }
     });
     let frozen = book.clone();
+    let start_content = snapshot(ctl_store.inner());
+    let journal_start = ctl.journal_len();
     ctl.set_gate(true);
     // responses in flight are scheduling points too
     ctl.set_post_gate(true);
@@ -490,9 +766,10 @@ fn run_one(wrap: Wrap, scn: &Scn, serial: &[Serial], ch: &mut Chooser) -> ExecOu
                     let r = match a {
                         Act::M(op) => {
                             let o = apply(store_ref, fz, op).await;
-                            (ActOut { class: norm(op, o.class), body: None }, o.etag)
+                            (ActOut::new(norm(op, o.class), None), o.etag)
                         }
                         Act::Get(k) => (get_act(store_ref, *k).await, None),
+                        Act::Ranges(k, rs) => (ranges_act(store_ref, *k, rs).await, None),
                         Act::List => (list_act(store_ref).await, None),
                     };
                     cell.borrow_mut().push(r);
@@ -509,6 +786,7 @@ fn run_one(wrap: Wrap, scn: &Scn, serial: &[Serial], ch: &mut Chooser) -> ExecOu
         steps = sched.steps.len();
     }
     ctl.set_gate(false);
+    let race_journal = ctl.journal_from(journal_start);
     // only the calls of the tasks: the checks below read through the same store
     ctl.keep_labels(false);
     let raw_labels = ctl.labels();
@@ -522,7 +800,7 @@ fn run_one(wrap: Wrap, scn: &Scn, serial: &[Serial], ch: &mut Chooser) -> ExecOu
         })
     };
     if end != RunEnd::AllDone {
-        return ExecOut { outcome: format!("{end:?}"), violation: viol("not-finished", format!("{end:?}")), steps, labels };
+        return ExecOut { outcome: format!("{end:?}"), violation: viol("not-finished", format!("{end:?}")), steps, labels, commits_checked: 0 };
     }
     let raw: Vec<Vec<(ActOut, Option<String>)>> = results.iter().map(|c| c.borrow().clone()).collect();
     let outs: Vec<Vec<ActOut>> = raw.iter().map(|t| t.iter().map(|(a, _)| a.clone()).collect()).collect();
@@ -530,11 +808,12 @@ fn run_one(wrap: Wrap, scn: &Scn, serial: &[Serial], ch: &mut Chooser) -> ExecOu
     let cold = build(wrap, ctl_store.clone());
     if let Some((what, text)) = util::block_on(post_race(store.as_ref(), cold.as_ref())) {
         let v = viol(&format!("post-race/{what}"), text);
-        return ExecOut { outcome: format!("{} -> post-race {what}", describe_outs(&outs)), violation: v, steps, labels };
+        return ExecOut { outcome: format!("{} -> post-race {what}", describe_outs(&outs)), violation: v, steps, labels, commits_checked: 0 };
     }
     let (warm_c, cold_c) = util::block_on(async { (content_of(store.as_ref()).await, content_of(cold.as_ref()).await) });
     let outcome;
     let mut violation = None;
+    let mut commits_checked = 0u64;
     match (&warm_c, &cold_c) {
         (Ok(w), Ok(c)) => {
             outcome = format!("{} -> {}", describe_outs(&outs), describe(w));
@@ -606,13 +885,20 @@ fn run_one(wrap: Wrap, scn: &Scn, serial: &[Serial], ch: &mut Chooser) -> ExecOu
                     violation = viol("reads-inconsistent", text);
                 }
             }
+            if violation.is_none() {
+                let (bad, n) = commit_order_check(wrap, &start_content, &race_journal, store.as_ref());
+                commits_checked = n;
+                if let Some((what, text)) = bad {
+                    violation = viol(&format!("commit-order/{what}"), text);
+                }
+            }
         }
         (Err(e), _) | (_, Err(e)) => {
             outcome = format!("{} -> unreadable", describe_outs(&outs));
             violation = viol("unreadable-after", e.clone());
         }
     }
-    ExecOut { outcome, violation, steps, labels }
+    ExecOut { outcome, violation, steps, labels, commits_checked }
 }
 
 fn main() {
@@ -661,6 +947,7 @@ fn main() {
             let mut outcomes: BTreeMap<String, u64> = BTreeMap::new();
             let mut viols: Vec<Violation> = Vec::new();
             let mut steps_total = 0u64;
+            let mut commits_total = 0u64;
             let stats = explore(
                 bound,
                 threads,
@@ -670,6 +957,7 @@ fn main() {
                 |_choices, out: ExecOut| {
                     *outcomes.entry(out.outcome.clone()).or_insert(0) += 1;
                     steps_total += out.steps as u64;
+                    commits_total += out.commits_checked;
                     if let Some(v) = out.violation {
                         viols.push(v);
                     }
@@ -679,6 +967,7 @@ fn main() {
             run.add("executions", stats.executions);
             run.add("traces_validated_against_impl", stats.executions);
             run.add("transitions", steps_total);
+            run.add("commits_compared_with_their_predecessor", commits_total);
             run.add("evaluations", stats.executions);
             run.add("states", outcomes.len() as u64);
             for o in outcomes.keys() {
@@ -717,8 +1006,9 @@ fn main() {
     run.set("harnesses", json!(table));
     run.set("preemption_bound", json!(bound));
     run.rule(
-        "per wrapper {MetaStore, EncryptedStore(cs=16)} and scenario (two or three tasks on one key through one wrapper instance over a gated backend): every schedule of inner-store calls with at most `preemption_bound` preemptions; \
-         oracle = answers of every action and final content of all keys equal some serial order of the tasks' atomic steps run on InMemory (a rename is two steps, copy then delete of the source, as documented; everything else is one), after all tasks returned the live instance's list / list_with_delimiter entries, get_ranges at the length boundaries, get with if_match = latest token and head must reflect the last completed commit as a fresh instance reports it (checked before any plain get, which would heal a stale pointer; a listing that overlaps a commit may itself report either version), live and fresh instance read the same, head/list agree, a surviving put's token is the one it returned; \
+        "per wrapper {MetaStore, EncryptedStore(cs=16)} and scenario (two or three tasks on one key through one wrapper instance over a gated backend; a task is a mutation, a full get, a listing, or ONE get_ranges call of 3-5 ranges in different chunk spans of a three-chunk object racing an equally long overwrite by put / Update / multipart / copy-onto / rename-onto, warm and cold): every schedule of inner-store calls with at most `preemption_bound` preemptions; \
+         oracle = answers of every action (for get_ranges: all bodies of the one call, so they must come from one commit) and final content of all keys equal some serial order of the tasks' atomic steps run on InMemory (a rename is two steps, copy then delete of the source, as documented; everything else is one), after all tasks returned the live instance's list / list_with_delimiter entries, get_ranges at the length boundaries, get with if_match = latest token and head must reflect the last completed commit as a fresh instance reports it (checked before any plain get, which would heal a stale pointer; a listing that overlaps a commit may itself report either version), live and fresh instance read the same, head/list agree, a surviving put's token is the one it returned; \
+         commit order (under a logical clock that advances on every reading): every commit of a key = every meta/<key> put in the backend journal, observed through a fresh instance over the journal prefix: last_modified never decreases from one commit of a key to the next, and get(if_modified_since = T of the previous commit) answers the new object, get(if_unmodified_since = that T) is refused (the other answer only for the very same instant), on the fresh instance at every commit and on the live instance at the end; \
          distinct = distinct observed (answers, final content) outcomes per harness; states = same; transitions = task polls",
     );
     run.assume("code between two backend calls runs atomically (single-threaded executor); one scheduling point before every backend call takes effect and one after it, before its result is delivered (responses in flight), plus wherever a task blocks on the per-key section");
